@@ -412,6 +412,35 @@ def valid_input(rng, fmt):
     return b""
 
 
+class _Spy:
+    """Stands in for the rng to enumerate the fixed samples of valid_input: choice() returns the i-th element."""
+
+    def __init__(self, i):
+        self.i, self.n = i, 0
+
+    def choice(self, lst):
+        self.n = max(self.n, len(lst))
+        return lst[self.i % len(lst)]
+
+    def random(self):
+        return 0.0
+
+    def randrange(self, *a):
+        return a[0] if len(a) > 1 else 0
+
+
+def fixed_samples(fmt):
+    out, i, n = [], 0, 1
+    while i < n:
+        spy = _Spy(i)
+        b = valid_input(spy, fmt)
+        n = max(n, spy.n)
+        if b not in out:
+            out.append(b)
+        i += 1
+    return out
+
+
 def corrupt(rng, b):
     """truncate or corrupt: cut at a random point, flip/insert/delete bytes, duplicate a slice, deep-nest."""
     b = bytes(b)
@@ -859,6 +888,17 @@ def search_cases(chk, thorough):
             if b is not None:
                 reqs.append(mk_req(".", b, fmt, rng.choice(["yaml", "json"]), False))
                 streams.append("fmt-%s-deep" % fmt)
+    # every prefix of every fixed sample (an input cut off at any byte, with and without its last newline)
+    for fmt in IN_FORMATS:
+        seen = set()
+        for b in fixed_samples(fmt):
+            for k in range(0, min(len(b), 160)):
+                pre = b[:k]
+                if pre in seen:
+                    continue
+                seen.add(pre)
+                reqs.append(mk_req(".", pre, fmt, "json" if len(seen) % 2 else "yaml", False))
+                streams.append("fmt-%s-prefix" % fmt)
     # arbitrary bytes as input of every format
     for fmt in IN_FORMATS:
         for _ in range(2000 if thorough else 40):
